@@ -12,8 +12,9 @@ func init() {
 		in := fs.String("in", "", "cases ndjson")
 		out := fs.String("out", "", "trace ndjson")
 		keep := fs.String("keep", "", "directory to keep the OBJ texts in (optional)")
+		budget := fs.Int("budget", 0, "stop (with a stop line) when the run has taken this many seconds; 0: never")
 		_ = fs.Parse(args)
-		return objstl.RunObjCases(*in, *out, *keep)
+		return objstl.RunObjCases(*in, *out, *keep, *budget)
 	}
 	commands["obj-random"] = func(args []string) error {
 		fs := flag.NewFlagSet("obj-random", flag.ExitOnError)
@@ -34,8 +35,9 @@ func init() {
 		in := fs.String("in", "", "cases ndjson")
 		out := fs.String("out", "", "trace ndjson")
 		keep := fs.String("keep", "", "directory to keep the STL files in (optional)")
+		budget := fs.Int("budget", 0, "stop (with a stop line) when the run has taken this many seconds; 0: never")
 		_ = fs.Parse(args)
-		return objstl.RunStlCases(*in, *out, *keep)
+		return objstl.RunStlCases(*in, *out, *keep, *budget)
 	}
 	commands["stl-random"] = func(args []string) error {
 		fs := flag.NewFlagSet("stl-random", flag.ExitOnError)
